@@ -278,10 +278,51 @@ func implSingle(t triple, vs variantSpec, zip bool) (ok bool, panicked interface
 			ok, panicked = false, r
 		}
 	}()
+	key, msg, sig, damage := layoutSingle(t)
+	defer func() {
+		if d := damage(); d != "" && panicked == nil {
+			ok, panicked = false, "verification modified caller memory: "+d
+		}
+	}()
 	if vs.v == ref.Pure && !zip {
-		return Verify(t.key, t.msg, t.sig), nil
+		return Verify(key, msg, sig), nil
 	}
-	return VerifyWithOptions(t.key, t.msg, t.sig, vs.opts(zip)), nil
+	return VerifyWithOptions(key, msg, sig, vs.opts(zip)), nil
+}
+
+// layoutSingle: in two calls out of three (decided by the triple) key, signature and message are
+// consecutive slices of one record buffer (key || sig || msg || guard), each with spare capacity
+// that is the next field; damage() reports any change to that buffer. nil arguments stay nil.
+func layoutSingle(t triple) (key, msg, sig []byte, damage func() string) {
+	sel := len(t.msg)
+	if len(t.sig) > 5 {
+		sel += int(t.sig[5])
+	}
+	if sel%3 == 0 {
+		return t.key, t.msg, t.sig, func() string { return "" }
+	}
+	buf := make([]byte, len(t.key)+len(t.sig)+len(t.msg)+16)
+	off := 0
+	put := func(b []byte) []byte {
+		if b == nil {
+			return nil
+		}
+		copy(buf[off:], b)
+		out := buf[off : off+len(b)]
+		off += len(b)
+		return out
+	}
+	key, sig, msg = put(t.key), put(t.sig), put(t.msg)
+	for i := off; i < len(buf); i++ {
+		buf[i] = 0xA5
+	}
+	keep := append([]byte{}, buf...)
+	return key, msg, sig, func() string {
+		if !bytes.Equal(buf, keep) {
+			return "the record buffer holding key || signature || message changed"
+		}
+		return ""
+	}
 }
 
 // implSingleOpts always goes through VerifyWithOptions.
@@ -295,7 +336,13 @@ func implSingleOpts(t triple, vs variantSpec, zip bool) (ok bool, panicked inter
 			ok, panicked = false, r
 		}
 	}()
-	return VerifyWithOptions(t.key, t.msg, t.sig, vs.opts(zip)), nil
+	key, msg, sig, damage := layoutSingle(t)
+	defer func() {
+		if d := damage(); d != "" && panicked == nil {
+			ok, panicked = false, "verification modified caller memory: "+d
+		}
+	}()
+	return VerifyWithOptions(key, msg, sig, vs.opts(zip)), nil
 }
 
 // implBatch runs VerifyBatch under recover.
@@ -316,14 +363,70 @@ func implBatch(entries []triple, vs variantSpec, zip bool, rnd *rt.Rng) (all boo
 			panicked = r
 		}
 	}()
-	pubs := make([]PublicKey, len(entries))
-	msgs := make([][]byte, len(entries))
-	sigs := make([][]byte, len(entries))
-	for i, e := range entries {
-		pubs[i], msgs[i], sigs[i] = e.key, e.msg, e.sig
-	}
+	pubs, msgs, sigs, damage := layoutBatch(entries)
 	all, valid, err = VerifyBatch(rnd, pubs, msgs, sigs, vs.opts(zip))
+	if d := damage(); d != "" && panicked == nil {
+		panicked = "VerifyBatch modified caller memory: " + d
+	}
+	valid = ownResult(valid)
 	return
+}
+
+// layoutBatch hands the entries to VerifyBatch the way callers hold them. In two calls out of three
+// (decided by the batch itself, so every run is the same) the keys are slices of ONE contiguous
+// buffer, likewise the messages and the signatures: every slice then has spare capacity that is
+// the next entry (an append onto an argument writes there). damage() reports any byte of those
+// buffers, guard bytes included, that changed. nil entries stay nil.
+func layoutBatch(entries []triple) (pubs []PublicKey, msgs, sigs [][]byte, damage func() string) {
+	n := len(entries)
+	pubs = make([]PublicKey, n)
+	msgs = make([][]byte, n)
+	sigs = make([][]byte, n)
+	sel := n
+	if n > 0 && len(entries[0].sig) > 3 {
+		sel += int(entries[0].sig[3])
+	}
+	if sel%3 == 0 {
+		for i, e := range entries {
+			pubs[i], msgs[i], sigs[i] = e.key, e.msg, e.sig
+		}
+		return pubs, msgs, sigs, func() string { return "" }
+	}
+	pack := func(get func(i int) []byte, set func(i int, b []byte)) (buf, keep []byte) {
+		total := 16
+		for i := 0; i < n; i++ {
+			total += len(get(i))
+		}
+		buf = make([]byte, total)
+		off := 0
+		for i := 0; i < n; i++ {
+			b := get(i)
+			if b == nil {
+				continue
+			}
+			copy(buf[off:], b)
+			set(i, buf[off:off+len(b)])
+			off += len(b)
+		}
+		for ; off < total; off++ {
+			buf[off] = 0xA5
+		}
+		return buf, append([]byte{}, buf...)
+	}
+	kb, kk := pack(func(i int) []byte { return entries[i].key }, func(i int, b []byte) { pubs[i] = b })
+	mb, mk := pack(func(i int) []byte { return entries[i].msg }, func(i int, b []byte) { msgs[i] = b })
+	sb, sk := pack(func(i int) []byte { return entries[i].sig }, func(i int, b []byte) { sigs[i] = b })
+	return pubs, msgs, sigs, func() string {
+		switch {
+		case !bytes.Equal(kb, kk):
+			return "the buffer holding the public keys changed"
+		case !bytes.Equal(mb, mk):
+			return "the buffer holding the messages changed"
+		case !bytes.Equal(sb, sk):
+			return "the buffer holding the signatures changed"
+		}
+		return ""
+	}
 }
 
 // filler pool: honest triples per variant, distinct seeds and messages.
@@ -371,4 +474,19 @@ func boolStr(b bool) string {
 		return "accept"
 	}
 	return "reject"
+}
+
+// ownResult: the result vector is the caller's memory. The harness keeps a copy and overwrites the
+// returned slice up to its capacity, as a caller post-processing its results in place would; a
+// vector that the library shares between calls then spoils a later call.
+func ownResult(valid []bool) []bool {
+	if valid == nil {
+		return nil
+	}
+	out := append([]bool{}, valid...)
+	full := valid[:cap(valid)]
+	for i := range full {
+		full[i] = false
+	}
+	return out
 }
